@@ -106,7 +106,10 @@ def make_symbolic(I, kind, name):
         cls = _resolve_class(kind[1])
         o = Obj(cls, {}, name)
         for f, fk in kind[2].items():
-            o.fields[f] = make_symbolic(I, fk, "%s.%s" % (name, f))
+            if isinstance(fk, tuple) and fk and fk[0] == 'lazy':
+                _lazy_field(o, f, fk[1], name)
+            else:
+                o.fields[f] = make_symbolic(I, fk, "%s.%s" % (name, f))
         o.meta['initial_fields'] = dict(o.fields)
         return o
     if tag == 'ctor':
@@ -135,7 +138,10 @@ def make_symbolic(I, kind, name):
         o = Obj(cls, {}, name)
         given = kind[2] if len(kind) > 2 else {}
         for f, fk in given.items():
-            o.fields[f] = make_symbolic(I, fk, "%s.%s" % (name, f))
+            if isinstance(fk, tuple) and fk and fk[0] == 'lazy':
+                _lazy_field(o, f, fk[1], name)
+            else:
+                o.fields[f] = make_symbolic(I, fk, "%s.%s" % (name, f))
 
         def dyn(I2, obj, fname):
             from .envmodel import _Val
@@ -160,7 +166,11 @@ def make_symbolic(I, kind, name):
             cls = cs[P.choose(len(cs), "managed-class")]
         else:
             cls = dbmodel.choose_stored_class(I, "managed-class")
-        return dbmodel.new_managed(I, cls, name)
+        o = dbmodel.new_managed(I, cls, name)
+        # optional per-contract column kinds (e.g. bounded concrete spines for multivalued attributes)
+        if len(kind) > 2 and kind[2]:
+            o.meta['column_kinds'] = dict(kind[2])
+        return o
     if tag == 'opaque_facts':
         return Opaque('object', kind[1], facts=set(kind[2]))
     if tag == 'model':
@@ -179,14 +189,27 @@ def make_symbolic(I, kind, name):
     raise OutOfFragment("unknown kind %r" % (kind,))
 
 
+def _lazy_field(o, f, fk, name):
+    """Field whose (possibly forking) value is chosen when the code first reads it: the choices of
+    fields a path never looks at do not multiply the paths."""
+    def create(I2, obj, f=f, fk=fk):
+        if callable(fk):
+            fk = fk(I2, obj)        # kind depending on sibling fields (which it may materialise)
+        v = make_symbolic(I2, fk, "%s.%s" % (name, f))
+        obj.fields[f] = v
+        obj.meta.setdefault('lazy_created', {})[f] = v
+        obj.meta.setdefault('initial_fields', {})[f] = v
+    o.meta.setdefault('lazy', {})[f] = create
+
+
 def _resolve_class(c):
     if isinstance(c, type):
         return c
     mod, _, name = c.rpartition('.')
-    obj = importlib.import_module(mod) if mod else builtins
     try:
+        obj = importlib.import_module(mod) if mod else builtins
         return getattr(obj, name)
-    except AttributeError:
+    except (AttributeError, ImportError):
         # nested class path
         parts = c.split('.')
         for i in range(len(parts) - 1, 0, -1):
@@ -270,8 +293,12 @@ def prove_contract(session, c, max_paths=4000, time_budget=None, known=()):
         for p, d in zip(a.kwonlyargs, a.kw_defaults):
             if d is not None:
                 defaults[p.arg] = d
+        deferred = []
         for p in params:
-            if p in c.arg_kinds:
+            if p in c.arg_kinds and isinstance(c.arg_kinds[p], tuple) and c.arg_kinds[p][0] == 'dep':
+                deferred.append(p)      # kind computed from the other (already chosen) arguments
+                args[p] = None
+            elif p in c.arg_kinds:
                 args[p] = make_symbolic(I, c.arg_kinds[p], p)
             elif getattr(c, 'default_arg_kind', None) is not None:
                 if p in defaults and P_choose_default(path, p):
@@ -282,6 +309,8 @@ def prove_contract(session, c, max_paths=4000, time_budget=None, known=()):
                 args[p] = I.eval(defaults[p], denv)
             else:
                 raise OutOfFragment("contract %s gives no kind for parameter %s" % (qn, p))
+        for p in deferred:
+            args[p] = make_symbolic(I, c.arg_kinds[p][1](args), p)
         if a.vararg is not None:
             args[a.vararg.arg] = ()
         if a.kwarg is not None:
@@ -471,7 +500,11 @@ def _path_pairs(I, args, paths):
         except pyvc.Raised:
             continue
         if parts[-1] == '*':
-            pairs.add((id(v), '*'))
+            if isinstance(v, list):
+                for x in v:             # every element object of the list
+                    pairs.add((id(x), '*'))
+            else:
+                pairs.add((id(v), '*'))
         else:
             pairs.add((id(v), parts[-1]))
     return pairs
